@@ -2,9 +2,13 @@ package signatureverify
 
 import (
 	"crypto"
+	"crypto/ecdsa"
+	"crypto/ed25519"
+	"crypto/rsa"
 	"crypto/x509"
 	"crypto/x509/pkix"
 	"encoding/asn1"
+	"math/big"
 
 	"github.com/gr33nbl00d/caddy-revocation-validator/zz_verif/verifrt"
 )
@@ -76,5 +80,55 @@ func VerifC04_AlgorithmTable() {
 	if err == nil && h != nil {
 		verifrt.Assert(h.HashStrategy == want.hash, "the declared algorithm selects its own hash")
 		verifrt.Assert(h.VerifyStrategy != nil && h.VerifyStrategy.GetAlgorithmID() == want.key, "the declared algorithm selects RSA or ECDSA verification")
+	}
+}
+
+// VerifC04_Strategies: the REAL RSA and ECDSA verification strategies over modelled primitives
+// (rsa.VerifyPKCS1v15 / ecdsa.Verify answer an arbitrary verdict; ecdsa.Verify dereferences r and s
+// like the real one; the signature value decodes to (r, s), or does not decode): VerifySignature
+// returns nil exactly when the key has the algorithm's type, the signature value is well-formed and
+// the primitive says "valid" - and it never panics on a malformed signature value or a foreign key type.
+func VerifC04_Strategies() {
+	valid := verifrt.NondetBool("primitive_says_valid")
+	verifrt.Override("crypto/rsa.VerifyPKCS1v15", func(pub *rsa.PublicKey, h crypto.Hash, hashed, sig []byte) error {
+		if valid {
+			return nil
+		}
+		return verifrt.NewError("crypto/rsa: verification error")
+	})
+	verifrt.Override("crypto/ecdsa.Verify", func(pub *ecdsa.PublicKey, hash []byte, r, s *big.Int) bool {
+		_ = r.Sign() // the real function reads both numbers: a nil one is a crash
+		_ = s.Sign()
+		return valid
+	})
+	decodes := verifrt.Choose(2) == 1
+	verifrt.Override("encoding/asn1.Unmarshal", func(b []byte, val interface{}) ([]byte, error) {
+		if !decodes {
+			return nil, verifrt.NewError("asn1: structure error")
+		}
+		if s, ok := val.(*signature); ok {
+			s.R, s.S = big.NewInt(7), big.NewInt(9)
+		}
+		return nil, nil
+	})
+	var key interface{}
+	keyKind := verifrt.Choose(3)
+	switch keyKind {
+	case 0:
+		key = &rsa.PublicKey{}
+	case 1:
+		key = &ecdsa.PublicKey{}
+	case 2:
+		key = ed25519.PublicKey{}
+	}
+	sigBytes := verifrt.NondetBytes("signatureValue", 4)
+	if verifrt.Choose(2) == 0 {
+		err := RSASignatureVerifyStrategy{}.VerifySignature(crypto.SHA256, key, []byte{1}, sigBytes)
+		verifrt.Assert((err == nil) == verifrt.And(keyKind == 0, valid), "RSA: accepted exactly for an RSA key under which the signature verifies")
+		verifrt.Reach("rsa")
+	} else {
+		err := ECDSASignatureVerifyStrategy{}.VerifySignature(crypto.SHA256, key, []byte{1}, sigBytes)
+		verifrt.Assert((err == nil) == verifrt.And(keyKind == 1 && decodes, valid), "ECDSA: accepted exactly for an ECDSA key, a well-formed (r, s) and a verifying signature")
+		verifrt.Reach("ecdsa")
 	}
 }
